@@ -169,14 +169,14 @@ func c12Birth(w *W, st ref.Stamp, class string) {
 			}
 			w.Eval(5)
 			// the By(n) variants list the same periods, only more or fewer of them
-			for _, n := range []int{1, 3, 12} {
+			for _, n := range []int{1, 3, 12, 16} {
 				by := yun.GetDaYunBy(n)
 				if len(by) != n {
 					w.Violatef("dayun", fmt.Sprintf("%s/by%d/len", tag, n), "GetDaYunBy(%d) has %d entries", n, len(by))
 					continue
 				}
 				for i, dy := range by {
-					if i > 0 {
+					if i == 1 || (i > 1 && i == n-1) {
 						step := i
 						if !fw {
 							step = -i
@@ -191,7 +191,16 @@ func c12Birth(w *W, st ref.Stamp, class string) {
 								w.Violatef("liunian", fmt.Sprintf("%s/by%d/%d/ln%d", tag, n, i, k), "GetLiuNianBy(%d)/GetXiaoYunBy(%d) of great fortune %d: %d/%d entries, last year %d pillar %s", k, k, i, len(ln), len(xy), ln[len(ln)-1].GetYear(), ln[len(ln)-1].GetGanZhi())
 							}
 						}
-						break // one great fortune per n is enough
+						// minor fortunes far out (ages past 120 with sixteen great fortunes): the hour pillar stepped once per year of age
+						for _, xy := range dy.GetXiaoYunBy(10) {
+							stp := xy.GetAge()
+							if !fw {
+								stp = -stp
+							}
+							if xy.GetAge() != xy.GetYear()-st.Y+1 || xy.GetGanZhi() != ref.Pair60(tIdx+stp+6000) {
+								w.Violatef("xiaoyun", fmt.Sprintf("%s/by%d/%d/xy%d", tag, n, i, xy.GetIndex()), "GetDaYunBy(%d)[%d] minor fortune of year %d: age %d pillar %s; hour pillar %s stepped %+d gives %s", n, i, xy.GetYear(), xy.GetAge(), xy.GetGanZhi(), ref.Pair60(tIdx), stp, ref.Pair60(tIdx+stp+6000))
+							}
+						}
 					}
 				}
 				w.Eval(2)
